@@ -654,7 +654,14 @@ class PrecipitateModel (PrecipitateBase):
                     else:
                         self.PSDXalpha[p] = np.concatenate((self.PSDXalpha[p], np.zeros((self.PBM[p].bins+1 - len(self.PSDXalpha[p]),1))))
                         self.PSDXbeta[p] = np.concatenate((self.PSDXbeta[p], np.zeros((self.PBM[p].bins+1 - len(self.PSDXbeta[p]),1))))
-                        self.PSDXalpha[p][addedIndices:,0], self.PSDXbeta[p][addedIndices:,0] = self.therm.getInterfacialComposition(self.pData.temperature[self.pData.n], self.particleGibbs(self.PBM[p].PSDbounds[addedIndices:], self.precipitateParameters[p].phase), precPhase=self.precipitateParameters[p].phase)
+                        xAlphaNew, xBetaNew = self.therm.getInterfacialComposition(self.pData.temperature[self.pData.n], self.particleGibbs(self.PBM[p].PSDbounds[addedIndices:], self.precipitateParameters[p].phase), precPhase=self.precipitateParameters[p].phase)
+                        xAlphaNew, xBetaNew = np.atleast_1d(xAlphaNew).astype(np.float64), np.atleast_1d(xBetaNew).astype(np.float64)
+                        #The new size classes are larger than any existing one, so if equilibrium could not be found for them (-1),
+                        #use the values of the largest existing size class rather than treating them as unstable
+                        invalid = xAlphaNew == -1
+                        xAlphaNew[invalid] = self.PSDXalpha[p][addedIndices-1,0]
+                        xBetaNew[invalid] = self.PSDXbeta[p][addedIndices-1,0]
+                        self.PSDXalpha[p][addedIndices:,0], self.PSDXbeta[p][addedIndices:,0] = xAlphaNew, xBetaNew
                 else:
                     self.PSDXalpha[p] = np.zeros((self.PBM[p].bins + 1, self.numberOfElements))
                     self.PSDXbeta[p] = np.zeros((self.PBM[p].bins + 1, self.numberOfElements))
